@@ -236,9 +236,13 @@ def build(C, opt):
         tp = jinns.parameters.Params(nn_params=jax.tree.map(lambda _: True, params.nn_params) if tracked in ("nn", "both") else None,
                                      eq_params={"theta": True if tracked in ("eq", "both") else None, "nu": None})
 
+    # obs_batch_sharding selects the OTHER implementation of the loop (plain Python while, non-jitted get_batch with device_put)
+    shard = jax.sharding.SingleDeviceSharding(jax.devices()[0]) if (opt.get("shard") and obs_data is not None) else None
+
     def run(n_iter, data=data, params=params, opt_state=None, param_data=param_data, obs_data=obs_data, validation=validation):
         return jinns.solve(n_iter=n_iter, init_params=params, data=data, loss=loss, optimizer=optimizer, opt_state=opt_state,
-                           tracked_params=tp, param_data=param_data, obs_data=obs_data, validation=validation, verbose=False)
+                           tracked_params=tp, param_data=param_data, obs_data=obs_data, validation=validation, verbose=False,
+                           obs_batch_sharding=shard)
 
     return dict(run=run, data=data, param_data=param_data, obs_data=obs_data, params=params, val_ref=val_ref, npts=npts, b=b,
                 nobs=nobs, nv=npts, bv=opt.get("bval", 4), oname=oname)
